@@ -5,7 +5,7 @@ from __future__ import annotations
 import ast
 
 from ..report import Cx, Ob, describe, obligation
-from ..rules import API, CONV, Prov, where
+from ..rules import API, CONV, Prov, construct_of_plain_strings, where
 from ..summ import describe_path
 from ..terms import NONE, callee_name, is_const, op, show, substitute, subterms
 
@@ -29,6 +29,9 @@ PREP = ("func", f"{API}._prepare")
 def record_kwargs(t):
     if op(t) == "call" and op(t[1]) == "cls" and t[1][1].endswith(".Record") and not t[2]:
         return {k: v for k, v in t[3] if k is not None}
+    if op(t) == "call" and op(t[1]) == "attr" and t[1][2] == "model_construct" and op(t[1][1]) == "cls" and t[1][1][1].endswith(".Record") and construct_of_plain_strings(t):
+        # the two canonical fields as `str(..)` of the names given (the identity on the strings a prefix map holds)
+        return {k: (v[2][0] if op(v) == "call" else v) for k, v in t[3]}
     return None
 
 
